@@ -7,10 +7,13 @@ use std::rc::Rc;
 #[derive(Clone, Copy, Debug, PartialEq, Eq, Serialize, Deserialize, Hash)]
 pub enum Side { Read, Write, Flush }
 #[derive(Clone, Copy, Debug, PartialEq, Eq, Serialize, Deserialize, Hash)]
-pub enum FKind { Other, BrokenPipe, WouldBlock, Interrupted, UnexpectedEof, OutOfMemory, PermissionDenied, ZeroWrite }
+pub enum FKind { Other, BrokenPipe, WouldBlock, Interrupted, UnexpectedEof, OutOfMemory, PermissionDenied, ZeroWrite,
+    /// the call and the next 49 999 calls on that side are all interrupted (EINTR), then the side works again
+    InterruptedStorm }
 pub const FKINDS: [FKind; 8] = [FKind::Other, FKind::BrokenPipe, FKind::WouldBlock, FKind::Interrupted, FKind::UnexpectedEof, FKind::OutOfMemory, FKind::PermissionDenied, FKind::ZeroWrite];
+pub const STORM: usize = 50_000;
 impl FKind {
-    pub fn kind(self) -> ErrorKind { match self { FKind::Other => ErrorKind::Other, FKind::BrokenPipe => ErrorKind::BrokenPipe, FKind::WouldBlock => ErrorKind::WouldBlock, FKind::Interrupted => ErrorKind::Interrupted, FKind::UnexpectedEof => ErrorKind::UnexpectedEof, FKind::OutOfMemory => ErrorKind::OutOfMemory, FKind::PermissionDenied => ErrorKind::PermissionDenied, FKind::ZeroWrite => ErrorKind::WriteZero } }
+    pub fn kind(self) -> ErrorKind { match self { FKind::Other => ErrorKind::Other, FKind::BrokenPipe => ErrorKind::BrokenPipe, FKind::WouldBlock => ErrorKind::WouldBlock, FKind::Interrupted => ErrorKind::Interrupted, FKind::UnexpectedEof => ErrorKind::UnexpectedEof, FKind::OutOfMemory => ErrorKind::OutOfMemory, FKind::PermissionDenied => ErrorKind::PermissionDenied, FKind::ZeroWrite => ErrorKind::WriteZero, FKind::InterruptedStorm => ErrorKind::Interrupted } }
 }
 /// The k-th call (1-based) on `side` fails once with `kind`; later calls behave normally.
 #[derive(Clone, Copy, Debug, PartialEq, Eq, Serialize, Deserialize, Hash)]
@@ -51,6 +54,7 @@ pub fn pair<'a>(data: &'a [u8], rs: &RSched, ws: &WSched, fault: Option<Fault>) 
 impl<'a> Read for SReader<'a> {
     fn read(&mut self, buf: &mut [u8]) -> io::Result<usize> {
         let sh = &self.sh; let call = sh.reads.get() + 1; sh.reads.set(call);
+        if let Some(f) = self.fault { if f.kind == FKind::InterruptedStorm && call > f.k && call < f.k + STORM && sh.fired.get() == Some(Side::Read) { return Err(io::Error::new(ErrorKind::Interrupted, "injected read fault (storm)")); } }
         if let Some(f) = self.fault { if f.k == call && sh.fired.get().is_none() { sh.fired.set(Some(Side::Read)); if sh.log_events.get() { sh.events.borrow_mut().push(Ev::X(Side::Read)); } return Err(io::Error::new(f.kind.kind(), "injected read fault")); } }
         let pos = sh.src_off.get(); let left = self.data.len() - pos;
         let cap = if call <= self.sched.gives.len() { self.sched.gives[call - 1].max(1) } else if self.sched.then == 0 { usize::MAX } else { self.sched.then };
@@ -65,6 +69,7 @@ impl<'a> Read for SReader<'a> {
 impl Write for SWriter {
     fn write(&mut self, buf: &[u8]) -> io::Result<usize> {
         let sh = &self.sh; let call = sh.writes.get() + 1; sh.writes.set(call);
+        if let Some(f) = self.fault { if f.kind == FKind::InterruptedStorm && f.side == Side::Write && call > f.k && call < f.k + STORM && sh.fired.get() == Some(Side::Write) { return Err(io::Error::new(ErrorKind::Interrupted, "injected write fault (storm)")); } }
         if let Some(f) = self.fault { if f.side == Side::Write && f.k == call && sh.fired.get().is_none() {
             sh.fired.set(Some(Side::Write)); if sh.log_events.get() { sh.events.borrow_mut().push(Ev::X(Side::Write)); }
             if f.kind == FKind::ZeroWrite { if sh.log_events.get() { sh.events.borrow_mut().push(Ev::W { offered: buf.len(), taken: 0, off: sh.sink.borrow().len(), src: sh.src_off.get() }); } return Ok(0); }
